@@ -25,7 +25,7 @@ def setup():
     from django.db import connection
     from .vp_djapp import models as M
     with connection.schema_editor() as ed:
-        for m in (M.T, M.Region, M.Country, M.Author, M.Tag, M.Post, M.Comment):
+        for m in (M.T, M.Region, M.Country, M.Author, M.Profile, M.Tag, M.Post, M.Comment):
             ed.create_model(m)
     _ready = True
 
@@ -67,7 +67,7 @@ def load_scalar(rows):
 def load_relational(inst):
     """inst: dict of lists of row dicts: country, author, tag, post, comment, post_tags."""
     M = models()
-    for m in (M.Comment, M.Post, M.Tag, M.Author, M.Country, M.Region):
+    for m in (M.Comment, M.Post, M.Tag, M.Profile, M.Author, M.Country, M.Region):
         m.objects.all().delete()
     M.Region.objects.bulk_create([M.Region(**r) for r in inst["region"]])
     M.Country.objects.bulk_create([M.Country(id=r["id"], name=r["name"], code=r["code"],
@@ -75,6 +75,8 @@ def load_relational(inst):
     M.Author.objects.bulk_create([M.Author(id=r["id"], name=r["name"], age=r["age"],
                                            country_id=r["country_id"], home_id=r.get("home_id"))
                                   for r in inst["author"]])
+    M.Profile.objects.bulk_create([M.Profile(id=r["id"], bio=r["bio"], level=r["level"],
+                                             author_id=r["author_id"]) for r in inst.get("profile", [])])
     M.Tag.objects.bulk_create([M.Tag(**r) for r in inst["tag"]])
     M.Post.objects.bulk_create([M.Post(id=r["id"], title=r["title"], rating=r["rating"],
                                        author_id=r["author_id"], home_id=r.get("home_id"))
